@@ -139,6 +139,20 @@ def deeper_wellformed(lo, hi):
             yield (''.join(t),)
 
 
+# decimal literals that binary floating point cannot hold exactly, next to ones it can
+INTDIV_LITERALS = ['.1', '.2', '.3', '.4', '.5', '.6', '.7', '.8', '.9', '1', '2', '3', '4', '5', '8', '10', '100',
+                   '1.1', '1.2', '2.4', '.25', '.05', '.01', '0.1', '12.5', '99.9']
+INTDIV_FORMS = ['%s\\%s', '-%s\\%s', '%s\\-%s', '-%s\\-%s', '(%s)\\(%s)', '(-%s)\\+%s', ' %s \\ %s', '2+%s\\%s', '%s\\%s-1',
+                '2*(%s\\%s)', '%s\\%s\\2', '(%s\\%s)/4']
+
+
+def intdiv_cases():
+    for a in INTDIV_LITERALS:
+        for b in INTDIV_LITERALS:
+            for f in INTDIV_FORMS:
+                yield (f % (a, b),)
+
+
 def random_cases(rng, count):
     for i in range(count):
         e = c19_spec.random_expr(rng, rng.choice([1, 2, 2, 3]))
@@ -170,6 +184,15 @@ def run(tier, seed):
                '%d..%d tokens' % (tl + 1, wl),
                'a case is one well-formed expression; distinct by string', exhaustive=True)
     run_parallel(c, 'bounded.c19', 'check_eval', deeper_wellformed(tl + 1, wl), chunk=4000)
+    out.append(c.done())
+
+    c = Clause('evaluate-intdiv-literals', 'B',
+               'integer division of two decimal literals a, b from %r in the forms %r' % (INTDIV_LITERALS, INTDIV_FORMS),
+               '%d x %d literal pairs x %d forms' % (len(INTDIV_LITERALS), len(INTDIV_LITERALS), len(INTDIV_FORMS)),
+               'a case is one expression; the decimal value is demanded when the operands of `\\` are literals and one '
+               'correctly rounded IEEE division reproduces the decimal quotient (decided by c19_spec, not by the repo); '
+               'otherwise only the exception clause applies; distinct by string', exhaustive=True)
+    run_parallel(c, 'bounded.c19', 'check_eval', intdiv_cases(), chunk=500)
     out.append(c.done())
 
     c = Clause('evaluate-random', 'B',
